@@ -201,6 +201,22 @@ let rec handle (pl : string) : string =
     if !bad <> "" then "t=" ^ !bad ^ ";class=e1p:" ^ !bad
     else Printf.sprintf "t=%s;delivered=%d;spec=%s;class=e1p:rev%s" (Buffer.contents trace) !delivered
            (bool01 (!delivered = List.length pl)) (if rev2 = "1" then "2" else "3")
+  | ["sac"; g; u; hg; hu; old; cut; fr] ->
+    let f = bytes_of_hex fr in
+    (match rle_encode f (n_of_int 1026) with
+     | EOk (bytes, complete, _) ->
+       let cut = ios cut in
+       let bytes = if cut >= 0 && cut < List.length bytes then List.filteri (fun i _ -> i < cut) bytes else bytes in
+       let size = List.length bytes in
+       let pkt = List.map n_of_int [0x0a; 0x00; ios g; ios u; 1; 0; 0; 0; 0; 2; size lsr 8; size land 255] @ bytes in
+       let head = Printf.sprintf "complete=%s;pkt=%s" (bool01 complete) (hex_of_bytes pkt) in
+       (match sandnet_handle_compressed pkt (nn hg) (nn hu) (buf_of old) with
+        | CHandled b -> Printf.sprintf "%s;handled=1;buf=%s;spec=%s;class=sac:%s" head (buf_s b)
+                          (bool01 (b = expect_overlay N0 f (buf_of old))) (if cut < 0 then "whole" else "cut-but-whole")
+        | CFailed b -> Printf.sprintf "%s;handled=0;buf=%s;spec=0;class=sac:truncated" head (buf_s b)
+        | CDropped -> Printf.sprintf "%s;handled=0;buf=%s;spec=0;class=sac:dropped" head (buf_s (buf_of old))
+        | COob -> head ^ ";handled=OOB" | CFuel -> head ^ ";handled=FUEL")
+     | _ -> "complete=?")
   | ["enc"; cap; fr] ->
     let f = bytes_of_hex fr in
     let cls = frame_class (List.map int_of_n f) in
